@@ -250,11 +250,43 @@ fn gen_svc(r: &mut Rng) -> u16 {
         _ => *r.pick(&[1u16, 2, 0x10, 0x8001, 0x8002, 0x8010]) }
 }
 fn gen_v4(r: &mut Rng) -> u32 { match r.below(6) { 0 => 0, 1 => 0xffff_ffff, 2 => 0x0a00_0001, 3 => 0x7f00_0001, _ => r.next() as u32 } }
+/// IPv6 values covering the corner forms of std's Display: dotted-quad tails (IPv4-mapped;
+/// IPv4-compatible and NAT64 for whatever std prints), `::`, `::1`, leading / trailing / inner /
+/// two competing zero runs, a single zero group, no zero group, all ones.
+const V6_CORNERS: [u128; 26] = [
+    0, 1,
+    0x0000_0000_0000_0000_0000_ffff_0000_0000, // ::ffff:0.0.0.0
+    0x0000_0000_0000_0000_0000_ffff_ffff_ffff, // ::ffff:255.255.255.255
+    0x0000_0000_0000_0000_0000_ffff_0a00_0001, // ::ffff:10.0.0.1
+    0x0000_0000_0000_0000_0000_ffff_0000_0001, // ::ffff:0.0.0.1
+    0x0000_0000_0000_0000_0000_0000_0102_0304, // ::1.2.3.4 (IPv4-compatible)
+    0x0000_0000_0000_0000_0000_0000_0001_0000, // ::0.1.0.0 / ::1:0
+    0x0064_ff9b_0000_0000_0000_0000_c000_0221, // 64:ff9b::192.0.2.33 (NAT64)
+    0x0000_0000_0000_0000_0000_fffe_0102_0304, // ::fffe:102:304 (not mapped)
+    0x0000_0000_0000_0000_ffff_0000_0102_0304, // ::ffff:0:102:304 (SIIT)
+    0x0001_0000_0000_0000_0000_0000_0000_0000, // 1::
+    0x0001_0000_0000_0000_0000_0000_0000_0001, // 1::1
+    0xfe80_0000_0000_0000_0000_0000_0000_0000, // fe80::
+    0x0000_0000_0001_0000_0000_0000_0000_0000, // 0:0:1::
+    0x0000_0000_0000_0000_0001_0000_0000_0000, // ::1:0:0:0
+    0x0001_0000_0000_0002_0000_0000_0000_0003, // 1:0:0:2::3 (longer run wins)
+    0x0001_0000_0000_0000_0002_0000_0000_0003, // 1::2:0:0:3
+    0x0001_0000_0000_0002_0000_0000_0003_0004, // equal runs: first wins
+    0x0001_0000_0003_0004_0005_0006_0007_0008, // single zero group: not compressed
+    0x0001_0002_0003_0004_0005_0006_0007_0008, // no zero group
+    0x0000_0002_0003_0004_0005_0006_0007_0008, // leading single zero group
+    0x0001_0002_0003_0004_0005_0006_0007_0000, // trailing single zero group
+    0xffff_ffff_ffff_ffff_ffff_ffff_ffff_ffff, // max length
+    0x2001_0db8_0000_0000_0000_0000_0000_0001, // 2001:db8::1
+    0x0000_0000_0000_0000_0000_0000_ffff_ffff, // ::255.255.255.255 / ::ffff:ffff
+];
 fn gen_v6(r: &mut Rng) -> u128 {
     let x = ((r.next() as u128) << 64) | r.next() as u128;
-    match r.below(10) {
-        0 => 0, 1 => 1, 2 => u128::MAX, 3 => 0x2001_0db8_0000_0000_0000_0000_0000_0001, 4 => 0xffff_0000_0000 | (r.next() as u32 as u128), // ::ffff:a.b.c.d
+    match r.below(12) {
+        0 | 1 | 2 => *r.pick(&V6_CORNERS),
+        3 | 4 => 0xffff_0000_0000 | (r.next() as u32 as u128), // ::ffff:a.b.c.d
         5 => r.next() as u32 as u128, 6 => x & 0xffff_0000_ffff_0000_0000_0000_ffff_0000, 7 => x & 0xffff_ffff_0000_0000_0000_0000_0000_ffff,
+        8 => (0x0064_ff9b_u128 << 96) | (r.next() as u32 as u128),
         _ => x,
     }
 }
@@ -384,6 +416,11 @@ fn gen_txt_cases(r: &mut Rng, n: usize, thorough: bool, cases: &mut Vec<Case>) {
               "scion=v1;[1-1,::ffff:1.2.3.4]", "scion=v1;[1-1,[::1]]", "scion=v1;[1-1,::1%eth0]", "scion=v1;[+1-+1,1.1.1.1]", "scion=v1;[1-0:0:1,1.1.1.1]"] {
         cases.push(t(s, "directed"));
     }
+    for pair in V6_CORNERS.chunks(2) {
+        let l: Vec<(u64, Host)> = pair.iter().map(|&a| (gen_ia(r), Host::V6(a))).collect();
+        cases.push(Case { kind: K_TXT, input: txt_canonical(&l), val: None, class: "value", list: Some(l.clone()) });
+        cases.push(t(&txt_spelled(r, &l), "grammar"));
+    }
     // every payload of length 0..3 over a 9-symbol alphabet
     let alpha = ["[", "]", ",", "1", "-", ".", ":", "x", " "];
     let mut small: Vec<String> = vec![String::new()];
@@ -437,6 +474,21 @@ fn main() {
     for s in [0u64, 1, 2, 3, 0x10, 0x11, 0x7fff, 0x8000, 0x8001, 0x8002, 0x8010, 0xffff] { cases.push(Case { kind: K_SVC, input: String::new(), val: Some(Val::Num(s)), class: "value", list: None }); }
     for a in [0u64, 1, 0xffff_ffff, 0x1_0000_0000, 0xffff_ffff_ffff, 0xff00_0000_0110] { cases.push(Case { kind: K_ASN, input: String::new(), val: Some(Val::Num(a)), class: "value", list: None }); }
 
+    // every IPv6 display corner form through every type that holds a host address
+    for &a in V6_CORNERS.iter() {
+        let (ia, p) = (gen_ia(&mut rng), gen_port(&mut rng));
+        for k in [K_HOST, K_ADDR_V6, K_ADDR, K_IPADDR, K_SOCK_V6, K_SOCK, K_IPSOCK] {
+            let v = match k { K_HOST => Val::Host(Host::V6(a)), K_ADDR_V6 | K_ADDR | K_IPADDR => Val::Addr(ia, Host::V6(a)), _ => Val::Sock(ia, Host::V6(a), p) };
+            cases.push(Case { kind: k, input: String::new(), val: Some(v), class: "value", list: None });
+        }
+    }
+    for &a in [0u32, 1, 0xffff_ffff, 0x0a00_0001, 0x7f00_0001, 0x0100_0000].iter() {
+        let (ia, p) = (gen_ia(&mut rng), gen_port(&mut rng));
+        for k in [K_HOST, K_ADDR_V4, K_ADDR, K_IPADDR, K_SOCK_V4, K_SOCK, K_IPSOCK] {
+            let v = match k { K_HOST => Val::Host(Host::V4(a)), K_ADDR_V4 | K_ADDR | K_IPADDR => Val::Addr(ia, Host::V4(a)), _ => Val::Sock(ia, Host::V4(a), p) };
+            cases.push(Case { kind: k, input: String::new(), val: Some(v), class: "value", list: None });
+        }
+    }
     // 2. every string of length 0..3 over the 10-symbol alphabet
     let mut small: Vec<String> = vec![String::new()];
     for a in ALPHA { small.push(a.to_string()); for b in ALPHA { small.push(format!("{a}{b}")); for c in ALPHA { small.push(format!("{a}{b}{c}")); } } }
